@@ -5,7 +5,7 @@ import Upd.IngestProofs
 Model: `Upd.ingest nm order x` (Upd/Ingest.lean) — `indexIngest` of internal/store/store.go with `indexValidReferrer`,
 `referrerListDedup`, `repoGetIndex`, over the `types.Index` model `Upd.Index`, as called by `memRepo.repoInit` and
 `dirRepo.indexLoad`; it mirrors the code with the repairs F21 (lock, invisible here), F23 (an adopted fallback index is
-remembered) and F30 (an existing response blob is not an error).  `nm` is the digest of a regenerated response
+remembered), F30 (an existing response blob is not an error) and F33 (the child scan starts from the converted list).  `nm` is the digest of a regenerated response
 document, `order` the order in which Go iterates over the map `addResp`.  The model is tied to the code by the
 `ingest` correspondence profile (harness/inpkg/store/ingest_harness_test.go, lean/Drivers/IngestMain.lean).
 
@@ -145,6 +145,16 @@ theorem convert_idem (nm nm' : List Desc → String) (order order' : List (Strin
     (x : IState) : ObsEq (ingest nm' order' (persist (ingest nm order x))) (ingest nm order x) :=
   convert_idem_main nm nm' order order' x
 
+/-- **convert_idem_children.** … and the same child records: what `GetDesc` finds among the children of listed
+    indexes right after the conversion is what it finds after the saved index has been loaded again (the repaired
+    `indexIngest` scans the manifests as listed after the conversion, patches/F33-*; before that repair children of
+    a regenerated response could be missing until the next restart). -/
+theorem convert_idem_children (nm nm' : List Desc → String)
+    (order order' : List (String × List Desc) → List (String × List Desc)) (horder : ∀ l, (order l).Perm l)
+    (x : IState) (hnb : NoBoth x.index.manifests) (hch : x.index.children = []) (hne : lookup x.blobs "" = none) :
+    (ingest nm' order' (persist (ingest nm order x))).index.children = (ingest nm order x).index.children :=
+  convert_idem_children_main nm nm' order order' horder x hnb hch hne
+
 /-- the second run sees a layout that is marked as converted, whatever the first one started from -/
 example (x : IState) : (persist (ingest idxName id x)).converted = true := ingest_converted_true idxName id x
 
@@ -204,9 +214,11 @@ example : ∃ pre : List (String × INode), pre ≠ [] ∧
 /-! ## the iteration order of the Go map does not matter -/
 
 /-- **convert_order_indep_partial.** For any two orders in which Go may iterate over `addResp` the results agree
-    on everything observable, and on the recorded children.  (The raw entry lists do differ: the order decides
-    which entry a swap-remove moves and thereby whether an additional untagged entry of a digest that is listed
-    anyway survives.)
+    on everything observable: converted flag, tags, responses, listed digests, blobs.  (The raw entry lists do
+    differ: the order decides which entry a swap-remove moves and thereby whether an additional untagged entry of
+    a digest that is listed anyway survives.  The child records are not part of `ObsEq`: the child scan follows
+    the order of the entries, and when index blobs list one digest both with an index and with a non-index media
+    type that order decides which descriptor is recorded and whether its children are.)
 
     Excluded (hence `_partial`): layouts violating `NoBoth`, and layouts in which the blob of a recorded response
     is missing (`hrp`) — if that digest happened to be the digest of a response regenerated for another subject,
@@ -217,8 +229,7 @@ theorem convert_order_indep_partial (nm : List Desc → String)
     (hnb : NoBoth x.index.manifests) (hch : x.index.children = []) (hne : lookup x.blobs "" = none)
     (hrp : ∀ e ∈ x.index.manifests, e.ann.isNil = false → e.ann.subj ≠ "" → (lookup x.blobs e.dig).isSome = true)
     (hnm : NoCollision nm x) :
-    ObsEq (ingest nm order x) (ingest nm order' x) ∧
-    (ingest nm order x).index.children = (ingest nm order' x).index.children := by
+    ObsEq (ingest nm order x) (ingest nm order' x) := by
   have hrp' : RespPresent x.blobs (pass1 x.index.manifests).respOf := by
     intro S' r hr
     obtain ⟨hrm, _, hrn, hrs, hS'⟩ := (pass1_respOf x.index.manifests S').1 r hr
